@@ -21,6 +21,7 @@ from ..worlds import build_world, Inst
 
 ID = "C18"
 ENGINE = "eqlmc-E1"
+CASE_TIMEOUT_S = 600       # one case is a whole rewrite orbit (hundreds of builds and evaluations)
 RULE = ("cases = base queries; for each the orbit under the rewrite generators is enumerated breadth-first up to k "
         "compositions and every member is evaluated (transitions = evaluations); non-trivial = the base result is neither "
         "empty nor the full product and the orbit has more than one member")
